@@ -329,7 +329,26 @@ func Alphabet() []sym {
 		if t == "uint" || t == "uint64" {
 			sets = append(sets, []string{"256", "65536", "4294967296"}, []string{"9007199254740993"}, []string{"9223372036854775808", "1"})
 		}
+		// the values just beyond each narrower width, as far as the element type holds them
+		for _, g := range [][]string{{"128", "256"}, {"-129", "-1"}, {"32768", "65536"}, {"-32769"}, {"2147483648", "4294967296"}, {"-2147483649"}, {"0", "9007199254740993"}, {"255", "127", "65535"}} {
+			ok := true
+			for _, v := range g {
+				ok = ok && fits(t, v)
+			}
+			if ok {
+				sets = append(sets, g)
+			}
+		}
+		seen := map[string]bool{}
 		for _, s := range sets {
+			k := "[]" + t + ":" + join(s)
+			if s == nil {
+				k += "nil"
+			}
+			if seen[k] {
+				continue
+			}
+			seen[k] = true
 			add("[]"+t, s, "[]"+t+":"+join(s))
 		}
 	}
@@ -353,6 +372,8 @@ func Alphabet() []sym {
 	add("[]string", nil, "")
 	add("[]string", []string{"1", "2"}, "")
 	add("[]string", []string{"256", "-1"}, "")
+	add("[]string", []string{"255", "256", "65536"}, "")
+	add("[]string", []string{"-129", "0x10000"}, "")
 	add("[]string", []string{"1", "abc"}, "[]string:1,abc")
 	add("[]string", []string{"0x7f", "1.5"}, "")
 	add("[]bool", []string{}, "")
